@@ -33,6 +33,25 @@ Theorem list_backups_enumerates :
 Proof. exact (conj list_backups_enum powers_cover). Qed.
 Print Assumptions list_backups_enumerates.
 
+(* meta_bg: the location from which descriptor block i is read (ext2fs_descriptor_block_loc2) is the
+   location where the writer puts it (ext2fs_super_and_bgd_loc2): in the first group of the meta group
+   when the primary superblock is in use, in the second when a backup superblock is *)
+Theorem descriptor_reader_meets_writer_primary : forall s bc i,
+  meta_bg s = true -> first_meta_bg s <= i -> 1 < desc_per_block s ->
+  0 < blocks_per_group s \/ 0 < first_data_block s \/ blocksize s <> 1024 \/ 0 < i ->
+  (group_first_block s (desc_per_block s * i) = 0 -> blocksize s <> 1024) ->
+  descriptor_block_loc s bc (first_data_block s) i = snd (fst (super_and_bgd_loc s (desc_per_block s * i))).
+Proof. exact desc_loc_primary_lemma. Qed.
+Print Assumptions descriptor_reader_meets_writer_primary.
+
+Theorem descriptor_reader_meets_writer_backup : forall s bc gb i,
+  meta_bg s = true -> first_meta_bg s <= i -> 2 < desc_per_block s ->
+  0 < blocks_per_group s -> gb <> first_data_block s ->
+  group_first_block s (desc_per_block s * i) + (if bg_has_super s (desc_per_block s * i) then 1 else 0) + blocks_per_group s < bc ->
+  descriptor_block_loc s bc gb i = snd (fst (super_and_bgd_loc s (desc_per_block s * i + 1))).
+Proof. exact desc_loc_backup_lemma. Qed.
+Print Assumptions descriptor_reader_meets_writer_backup.
+
 Example ex_groups : map (bg_has_super (mkSb true false 0 0 false 0 32 1 0 1 8192 1024)) [0;1;2;3;9;15;25;27;49;50;343] =
                     [true;true;false;true;true;false;true;true;true;false;true].
 Proof. vm_compute. reflexivity. Qed.
